@@ -19,12 +19,17 @@ fn plans(tier: Tier) -> Vec<Plan> {
             Plan { n: 4, depth: 3, cfgs: traced(&[0], false) },
             // Deeper histories over the reduced shape set (recycled, non-sequential free lists).
             Plan { n: 4, depth: 5, cfgs: traced(&[0], false).into_iter().filter(|c| !c.ap).map(|mut c| { c.reduced = true; c.notify_ops = false; c }).collect() },
+            // From non-initial states (free list in descending order after one fill-and-drain).
+            Plan { n: 4, depth: 3, cfgs: traced(&[0], false).into_iter().filter(|c| !c.ap).map(|mut c| { c.preroll = 1; c.notify_ops = false; c }).collect() },
+            Plan { n: 2, depth: 3, cfgs: traced(&[65533], true).into_iter().filter(|c| !c.ap).map(|mut c| { c.preroll = 1; c.notify_ops = false; c }).collect() },
         ],
         Tier::Thorough => vec![
             Plan { n: 1, depth: 9, cfgs: traced(&[0, 65535, 65533], true) },
             Plan { n: 2, depth: 7, cfgs: traced(&[0, 65535, 65533], true) },
             Plan { n: 4, depth: 5, cfgs: traced(&[0, 65534], true) },
             Plan { n: 8, depth: 4, cfgs: traced(&[0], false) },
+            Plan { n: 4, depth: 5, cfgs: traced(&[0, 65533], true).into_iter().filter(|c| !c.ap).flat_map(|c| [1u8, 2].map(|p| { let mut c = c; c.preroll = p; c.notify_ops = false; c })).collect() },
+            Plan { n: 8, depth: 3, cfgs: traced(&[0], false).into_iter().filter(|c| !c.ap).map(|mut c| { c.preroll = 1; c.notify_ops = false; c }).collect() },
         ],
     }
 }
